@@ -326,3 +326,10 @@
 ;@ghost ctOk (Seq Bool)
 ;@ghost ctId (Seq String)
 ;@ghost fbpi (Seq Int)
+;@ghost gborAddr (Seq String)
+
+;@chunk truthy isTruthy envValue
+; values of keepNextHopRoute / KEEP_NEXT_HOP_ROUTE that switch the option on (compared in lower case)
+(define-fun isTruthy ((s String)) Bool
+  (or (= (lower s) "true") (= (lower s) "yes") (= (lower s) "1") (= (lower s) "on") (= (lower s) "t") (= (lower s) "y")))
+(declare-fun envValue (String) String)
